@@ -122,6 +122,10 @@ def alphabet_for(spec, tier):
             ops.append(("multicast_level", lvl))
     if cls in ("mesh", "meshfull", "master"):
         ops.append(("renew_address", 0.08))
+        if cls != "master":
+            # the poll and the address request are answered (scripted ghost master), the confirming
+            # lookups are not: the granted address cannot be verified and must be given up again
+            ops.append(("renew_address_unconfirmed", 0.7))
         for env in (True, False):
             ops.append(("release_address", env))
             for reply in ((True, False) if env else (False,)):
@@ -212,6 +216,14 @@ def do_op(state, op, seed=0):
     elif kind == "multicast_level":
         node.multicast_level = op[1]
     elif kind == "renew_address":
+        res = node.renew_address(op[1])
+    elif kind == "renew_address_unconfirmed":
+        w.phantom_ack = _ack_all
+        lvl4 = N.expected_pipes(O("4444"), 4, True, node.address_prefix[0], tuple(node.address_suffix))[0]
+        # what a master would send: the POLL reply and (after the request) the MESH_ADDR_RESPONSE
+        w.at(w.now + 8 * MS, GhostShot(ghost, lvl4, hdr(0, O("4444"), 3, 194), noack=True), "fire")
+        for t_ms in (75, 90):
+            w.at(w.now + t_ms * MS, GhostShot(ghost, lvl4, hdr(0, O("4444"), 4, 128, node.node_id) + struct.pack("<H", O("5")), noack=True), "fire")
         res = node.renew_address(op[1])
     elif kind == "release_address":
         w.phantom_ack = _ack_all if op[1] else None
